@@ -243,6 +243,33 @@ func init() {
 		}
 		return s
 	})
+	// publishers of both levels at once (their Saves may overlap), the read
+	// routine saving PUBRELs in between, then a stop
+	register("restart2p", func() *Scenario {
+		s := scenarios["restart"]()
+		rd := ActorSpec{Name: "reader", Reader: &ReaderSpec{Backoff: true}}
+		s.Actors = []ActorSpec{rd,
+			{Name: "A", Ops: []Op{{Kind: "pub1", Topic: "t/1", Msg: []byte("m1-aaaa")}, {Kind: "pub1", Topic: "t/2", Msg: []byte("m2-aaaa")}}},
+			{Name: "B", Ops: []Op{{Kind: "pub2", Topic: "u/1", Msg: []byte("n1-bbbb")}, {Kind: "pub2", Topic: "u/2", Msg: []byte("n2-bbbb")}, {Kind: "pub2", Topic: "u/3", Msg: []byte("n3-bbbb")}}},
+		}
+		s.Gens = [][]ActorSpec{{rd, {Name: "A", Ops: []Op{{Kind: "pub1", Topic: "t/3", Msg: []byte("m3-aaaa")}}}}, {rd}}
+		// final acknowledgements of the first generation are withheld: records stay
+		var w0 *World
+		s.Init = func(w *World) { w0 = w }
+		s.Mute = func(p *Packet) bool {
+			return w0 != nil && w0.gen == 0 && (p.Type == tPUBREL || p.Type == tPUBLISH && p.QoS == 1)
+		}
+		prev := s.Final
+		s.Final = func(w *World) {
+			if w.gen == 0 {
+				w.monitorWire()
+				return
+			}
+			prev(w)
+		}
+		s.Faults = Faults{Crash: true}
+		return s
+	})
 	// the same history over mqtt.FileSystem on the in-memory file system
 	register("restartfs", func() *Scenario {
 		s := scenarios["restart"]()
